@@ -322,7 +322,8 @@ ByteArray decodeBase64(const char* src0, int n)
 			i = 0;
 		}
 	}
-	result.resize(int(dest - result.data()) - e);
+	int n2 = int(dest - result.data()) - e;
+	result.resize(n2 < 0 ? 0 : n2);
 	return result;
 }
 
